@@ -165,12 +165,34 @@ CLAIMED = {
              'real-process sweep. Premise of the liveness half: the child eventually exits. Open known findings matched by mechanism/signature: F-G3 '
              '(child dies holding the queue write lock ⇒ run never finishes), F-G2, F-G1. F-H1 found and fixed.',
         technique='Lean 4 proofs over a deterministic API-level model + differential correspondence with a simulated child + real-process ending/signal sweep'),
+    'C05': dict(
+        text=('Theorems over model D2 (the frame filter evaluated over the GENERATED hook call order + the part of CPython 3.12.1 bdb/pdb that decides '
+              'stopping: stop_here, the four dispatchers with the generator rules, the five resuming commands incl. nextline\'s set_continue/stop_here/'
+              'set_until/get_stack overrides, set_step\'s f_trace patch, the refused command loop): with module tracing off a frame is accepted iff it is '
+              'not a lambda and belongs to the script (an iff); with it on an accepted frame is no lambda and matches no skip pattern; after step, '
+              'stop_here is true everywhere, every line event of a line-traced accepted frame and every call prompts, and all-step keeps that state for '
+              'ever; after next/until in frame f no event of any other frame prompts or changes the stop state until an event of f itself; after '
+              'continue no later event of the entity prompts; events that reach Pdb outside a trace call never prompt; filtered calls are inert. Tied to '
+              '/repo by the translator (plug-in registration order, skip list) and by exact correspondence: every generated program is run untraced, '
+              'under an independent sys.settrace recorder (interpreter-level stream per thread/task with frame identities) and through the real trace '
+              'machinery; for each trace the model, fed the recorder stream and the commands actually given, must predict the same prompt list '
+              '(line, event, function shown) — exhaustive over a 9-block reduced grammar up to 3 blocks × 6 policies, random programs × 8 policies, '
+              'generator/yield-from/context-manager/exception templates, threads and tasks with thread tracing on and off, module tracing on; plus an '
+              'oracle written from the statement (all-step: prompts = executed lines in order; all-next: the bottom frame only, all of its lines; '
+              'all-continue: one prompt; never in lambdas / skipped modules / other threads) and the filter alone against the real pluggy hook.'),
+        design='§6 C05, App. B, §0.6',
+        note=COMMON_NOTE + 'The model is of CPython 3.12.1\'s bdb/pdb: hypotheses botframe known and not a generator frame are explicit in continue_once / '
+             'next_not_in_callees (bdb\'s StopIteration/GeneratorExit rule). Not modelled: breakpoints, skip patterns of Pdb, quit/up/down/jump; '
+             'executor-pool programs are excluded from the exact comparison (entity assignment is the program\'s own nondeterminism). Defects F-D1 '
+             '(lambda prompted) and F-D2 (task never prompted again after next at a callee\'s exception) were found here and fixed.',
+        technique='Lean 4 proofs over an executable model of the filter chain and bdb/pdb stop logic + translator + exact prompt-list correspondence against an independent recorder'),
     'C06': dict(
-        text=('Theorems over model D1 (event-emitting trace pipeline: entity→trace mapping, thread/task numbering, nested blocks, global counters) for '
+        text=('Theorems over model D1 (event-emitting trace pipeline: entity→trace mapping, thread/task numbering, nested blocks, global counters whose '
+              'numbers are drawn in hidden steps and emitted in later ones, at most one event per step) for '
               'every interleaving of entities: trace numbers are never reused and two live traces never belong to one entity; the thread number is a '
               'function of the OS thread and injective, task numbers are given to exactly one trace within a thread number, threads have no task number; '
-              'every event an action of an entity emits carries that entity\'s trace number (full statement false only for the two actions of an entity '
-              'without a trace, which emit nothing — proved as attribution_partial/_of_traced/_of_live); an action of one entity leaves every other '
+              'every event an action of an entity emits carries the number of that entity\'s live trace, and an entity without a trace emits nothing '
+              '(attribution, untraced_emits_nothing); an action of one entity leaves every other '
               'trace untouched, and its enabledness and output do not depend on the phase of any other trace (an unanswered prompt blocks nobody else). '
               'Tied to /repo by model acceptance of the event streams emitted by the real trace machinery on generated programs with up to 3 threads and '
               '3 tasks (nested, sequential, executor threads), and an oracle using code locations as ground truth for the producing entity, incl. a '
@@ -182,9 +204,11 @@ CLAIMED = {
         text=('Theorems over model D1 for every interleaving of entities and every sequence of their actions incl. aborts at any nesting level and '
               'entities that never finish: the emitted stream is accepted by the very grammar the main-process registrars rely on (Reg.wrun of C11): per '
               'trace start, trace calls each optionally holding one command loop with prompt start/end pairs, end; matching numbers; nothing outside '
-              'start…end; trace numbers 1,2,3… in start order, trace-call and prompt numbers strictly increasing over the run; an abort closes everything '
-              'open innermost first; every event class carries run_no (generated field table). Tied to /repo by model acceptance (same nesting, same '
-              'numbers) of streams emitted by the real trace machinery in-process on generated programs × policies (step/next/continue/return/until/'
+              'start…end; trace, trace-call and prompt numbers unique in the run and increasing within each trace (numbers are drawn atomically but '
+              'emitted in a later step, so the stream need not show them in drawing order — proved by witness); a step emits at most one event, the '
+              'hidden number-drawing steps none; an exception closes everything open innermost first; every event class carries run_no (generated field '
+              'table). Tied to /repo by the deterministic model run on the observed events plus a harness-computed witness for the hidden steps (same '
+              'nesting, same numbers) on streams emitted by the real trace machinery in-process on generated programs × policies (step/next/continue/return/until/'
               'mixes/decoys/non-resuming commands) and by real spawn children with SIGINT at an open prompt (child-side probe), plus a stack-checker oracle.'),
         design='§6 C09, §5 model D1',
         note=COMMON_NOTE + 'That CPython invokes the trace function as the model\'s labels say (no nested trace calls within a trace) is assumed and exercised.',
